@@ -106,7 +106,7 @@ def _run(case):
     from netconan.anonymize_files import FileAnonymizer
 
     fa = FileAnonymizer(anon_pwd=bool(case.get("pwd")), anon_ip=False, salt=salt, sensitive_words=list(words), reserved_words=list(user) if user else None)
-    out = core.run_io(fa, "".join(l + "\n" for l in lines))
+    out = core.run_io(fa, "".join(l + "\n" for l in lines), bool(case.get("nonl")))
     return out.split("\n")[:-1]
 
 
@@ -338,7 +338,7 @@ def _case(draw):
         pwd = True
         tails = ["cable shared-secret Zq9xWv", "wpa-psk ascii 7 ABCDEF0123", "ldap-login-password Pq7zz", "key-string 7 0822455D0A16", "password Hx9Gk2Lm", "snmp-server community Qq7Zz ro"]
         lines = [l.rstrip() + " " + draw(st.sampled_from(tails)) for l in lines]
-    return {"words": words, "reserved": user, "salt": draw(st.one_of(st.text(max_size=5), st.sampled_from(["", "s"]))), "lines": lines, "via": via, "pwd": pwd}
+    return {"words": words, "reserved": user, "salt": draw(st.one_of(st.text(max_size=5), st.sampled_from(["", "s"]))), "lines": lines, "via": via, "pwd": pwd, "nonl": draw(st.integers(0, 3)) == 0}
 
 
 _FORMS = ["password {}", "snmp-server community {}", "enable secret {}", " key {}", "username admin password {}", "set snmp community {}"]
